@@ -1,5 +1,6 @@
 import Drv.Sync
 import FsutilModel.Model.MetaOnlyB
+import FsutilModel.Lemmas.C19Fwd
 open Lean Fsm
 
 namespace Drv
@@ -54,7 +55,10 @@ def hMetaSync (j : Json) : Except String Json := do
                   ("listing", Json.arr (r.listing.map statJ).toArray),
                   ("spec_listing", Json.arr ((stats.filter (·.path ≠ metaNameB)).map statJ).toArray),
                   ("forwarded", Json.arr (fwd.map (fun s => jhex s.path)).toArray),
-                  ("spec_forwarded", Json.arr (specFwd.map (fun s => jhex s.path)).toArray)]
+                  ("spec_forwarded", Json.arr (specFwd.map (fun s => jhex s.path)).toArray),
+                  -- premise of C19.forwarded_is_selected_plus_ancestors, evaluated on the stream the real sender produced
+                  ("canon", toJson (C19F.mcanonB (stats.filter (fun e => e.path ≠ metaNameB)))),
+                  ("fwd_is_spec", toJson (r.forwarded.map (·.path) == specFwd.map (·.path)))]
   out := out ++ verdictJ "c01" (specSync o before after specView)
   out := out ++ verdictJ "c01_m" (specSync o before after fview)
   return jobj out
